@@ -76,6 +76,17 @@ class GenericResolver(Generic[K, M]):
             return tp
         return tp[tuple(chain.from_iterable(type_var_to_actual[type_var] for type_var in params))]
 
+    def _get_own_orig_bases(self, tp) -> tuple:
+        # `__orig_bases__` is an ordinary attribute, so a class without it sees the value of its parent.
+        # A plain subclass of a generic class uses the parent bare
+        try:
+            own_attrs = vars(tp)
+        except TypeError:
+            return getattr(tp, "__orig_bases__", ())
+        if "__orig_bases__" in own_attrs:
+            return own_attrs["__orig_bases__"]
+        return getattr(tp, "__bases__", ())
+
     def _get_members_by_parents(self, tp) -> MembersStorage[K, M]:
         members_storage = self._raw_members_getter(tp)
         if not any(
@@ -83,11 +94,12 @@ class GenericResolver(Generic[K, M]):
             for tp in members_storage.members.values()
         ):
             return members_storage
-        if not hasattr(tp, "__orig_bases__"):
+        orig_bases = self._get_own_orig_bases(tp)
+        if not orig_bases:
             return members_storage
 
         bases_members: dict[K, TypeHint] = {}
-        for base in reversed(tp.__orig_bases__):
+        for base in reversed(orig_bases):
             bases_members.update(self.get_resolved_members(base).members)
 
         return replace(
